@@ -1,32 +1,25 @@
 /* C19 / C07: secp256k1_bppp_rangeproof_norm_product_verify - every gate, scratch discipline, index
- * safety of gammas[log i], rho_inv_pows[log i], s_g[i - 2^log i], s_h[...], of both multi-exponentiation
- * callbacks, and the binding of every proof byte into the challenge transcript.
+ * safety of gammas[log i], rho_inv_pows[log i], s_g[i - 2^log i], s_h[...], the data handed to both
+ * multi-exponentiation callbacks, and the binding of every proof byte into the challenge transcript.
  *
- * h_verify_gate (default)  lengths symbolic (c_vec_len <= 2^16, g_vec->n <= 2^17, g_len unconstrained),
- *     the three length-driven loops closed by loop contracts (hooks/C19_verify_loops.diff), the
- *     log-length loops (<= 63 rounds, code-enforced) by full unwinding.  Scalar oracles in the
- *     "frame only" form (see contracts/assumed_bppp.h, BP_SCALAR_FRAME).
- * -DVERIFY_B8              bounded stand-in g_len, c_vec_len <= 8, all loops unwound, standard oracle
- *     contracts with their representation preconditions: every operand handed to scalar_mul/sqr/
- *     inverse really is < n.
+ * h_verify_gate   Input domain: EVERY (g_len, c_vec_len, g_vec->n, proof_len, rho, proof bytes, scratch
+ *     state) for which some gate of the specification fails (the function must return 0 without any
+ *     group operation), plus every input that passes all gates with g_len, c_vec_len <= VLEN (default 2;
+ *     the thorough unit uses 8).  So the GATES are decided for all lengths; the code after the gates
+ *     (scratch arrays, loops, final comparison) for lengths <= VLEN: bounded.  Loops are unwound with
+ *     unwinding assertions: if the code let a longer vector through its gates, an unwinding assertion fails.
+ * h_verify_cb     callback contracts CB1_PRE / CB2_PRE => every index below n is safe (unbounded).
  *
- * secp256k1_ecmult_multi_var takes a callback, so it is replaced by a MODEL WITH A BODY instead of
- * a contract: it invokes the callback for an arbitrary index idx < n (the callbacks are stateless
- * readers, so one unconstrained index stands for every index the real function can use - assumption:
- * the real function only uses indices below n), yields an arbitrary group element in representation
- * range, fails if the callback fails and may fail on its own (scratch space).  It does not touch
- * the scratch space (the real one restores its own checkpoint). */
-#ifdef VERIFY_B8
-# define BP_SCALAR_SQR
-#else
-# define BP_SCALAR_FRAME
+ * secp256k1_ecmult_multi_var takes a callback, so it is replaced by a MODEL WITH A BODY instead of a
+ * contract: it checks the callback contract at the call, yields an arbitrary group element in
+ * representation range and an arbitrary verdict (it fails when a callback fails or scratch space
+ * runs out), and does not touch the scratch space (the real one restores its own checkpoint).
+ * Assumption: the real function only invokes the callback with indices below n. */
+#ifndef VLEN
+# define VLEN 2
 #endif
+#define BP_SCALAR_SQR
 #define BP_GEJ_EQ
-#ifdef VERIFY_B8
-# define BP_MEMSET            /* real scratch allocator; only its symbolic-length memset is a contract */
-#else
-# define BP_SCRATCH_ALLOC     /* fresh-object abstraction of the allocator */
-#endif
 #define BP_PUBKEY_PARSE
 #include "assumed_bppp.h"
 #include "hash_log.h"
@@ -45,6 +38,9 @@ int g_mm_n; size_t g_mm_cnt0, g_mm_cnt1; int g_mm_hasg0, g_mm_hasg1, g_mm_ok0, g
 #define secp256k1_ecmult_multi_var secp256k1_ecmult_multi_var_real_unused
 #include "src/ecmult_impl.h"
 #undef secp256k1_ecmult_multi_var
+#define secp256k1_scratch_alloc secp256k1_scratch_alloc_real_unused
+#include "src/scratch_impl.h"
+#undef secp256k1_scratch_alloc
 size_t nondet_mm_idx(void); _Bool nondet_mm_ok(void);
 /* The two callbacks the verifier passes, and the data they get (types defined later in the TU, so the
  * model sits after the library include, see below).  CALLBACK CONTRACTS: the model asserts at each
@@ -61,6 +57,24 @@ static int secp256k1_ecmult_multi_var(const secp256k1_callback* error_callback, 
 #include "src/secp256k1.c"
 #include "post.h"
 
+/* ---- model of secp256k1_scratch_alloc: ABSTRACT form of the contract that C19.scratch_alloc /
+ * C19.scratch_checkpoint prove on the real body (success exactly when the 16-byte-rounded size fits,
+ * mark advances by the rounded size, block inside the data block and disjoint from earlier live
+ * blocks): a successful allocation is a FRESH heap object of the rounded size instead of a sub-range
+ * of the data block.  Separate objects are STRICTER for the caller (an access running from one block
+ * into the next is out of bounds here).  Why a model with a body: with the real allocator every
+ * scalar access is 32 byte accesses at a symbolic offset of one byte array (array constraints exhaust
+ * 12 GB); as a DFCC contract with __CPROVER_is_fresh the object bookkeeping does. ---- */
+static void *secp256k1_scratch_alloc(const secp256k1_callback* error_callback, secp256k1_scratch* scratch, size_t size) {
+    size_t r = (size + 15) & ~(size_t)15; void *p;
+    (void)error_callback;
+    __CPROVER_assert(memcmp(scratch->magic, "scratch", 8) == 0 && scratch->alloc_size <= scratch->max_size, "C19 verify: scratch_alloc is given a genuine scratch space");
+    if (size > SIZE_MAX - 15 || r > scratch->max_size - scratch->alloc_size) return NULL;
+    p = malloc(r); __CPROVER_assume(p != NULL);           /* model: fresh block (contents arbitrary; the real one is zero-filled) */
+    scratch->alloc_size += r;
+    return p;
+}
+
 /* ---- model of secp256k1_ecmult_multi_var (see head of file) ---- */
 static int secp256k1_ecmult_multi_var(const secp256k1_callback* error_callback, secp256k1_scratch *scratch, secp256k1_gej *r, const secp256k1_scalar *inp_g_sc, secp256k1_ecmult_multi_callback cb, void *cbdata, size_t n) {
     secp256k1_gej res; int ok;
@@ -72,9 +86,7 @@ static int secp256k1_ecmult_multi_var(const secp256k1_callback* error_callback, 
         const ec_mult_verify_cb_data2 *d = (const ec_mult_verify_cb_data2 *)cbdata;
         __CPROVER_assert(CB2_PRE(d, n), "C19 verify: second multi-exponentiation gets s_g[g_len], s_h[n - g_len] and n generators readable (callback contract)");
     } else __CPROVER_assert(0, "C19 verify: multi-exponentiation is given one of the two verifier callbacks");
-#ifdef VERIFY_B8
-    if (inp_g_sc != NULL) __CPROVER_assert(scalar_ok(inp_g_sc), "C19 verify (<=8): generator scalar handed to the multi-exponentiation is below n");
-#endif
+    if (inp_g_sc != NULL) __CPROVER_assert(scalar_ok(inp_g_sc), "C19 verify: generator scalar handed to the multi-exponentiation is below n");
     __CPROVER_assume(gej_ok(&res));                      /* model: result in representation range */
     *r = res;
     ok = nondet_mm_ok();                                 /* model: fails when a callback fails (invalid point) or scratch space runs out */
@@ -84,17 +96,9 @@ static int secp256k1_ecmult_multi_var(const secp256k1_callback* error_callback, 
     return ok;
 }
 
-#ifdef VERIFY_B8
-# define LMAX ((size_t)8)
-#else
-# define LMAX ((size_t)1 << 16)
-#endif
+#define LMAX ((size_t)1 << 16)
 #define PMAX ((size_t)(65 * 63 + 64 + 40))
-#ifdef VERIFY_B8
-# define MAXS ((size_t)1 << 12)
-#else
-# define MAXS ((size_t)1 << 26)
-#endif
+#define MAXS ((size_t)1 << 12)
 
 static int spec_log2(size_t x) { int b, r = 0; for (b = 0; b < 64; b++) if ((x >> b) != 0) r = b; return r; }
 static int spec_pow2(size_t x) { int b, c = 0; for (b = 0; b < 64; b++) c += (int)((x >> b) & 1); return c == 1; }
@@ -113,25 +117,12 @@ void h_verify_gate(void) {
     __CPROVER_assume(scalar_ok(&rho) && ge_ok(&commit) && tr.bytes <= ((uint64_t)1 << 40));
     __CPROVER_assume(we < 64 && wk < 65);
     memcpy(scr.magic, "scratch", 8); scr.max_size = max_size; scr.alloc_size = alloc0;
-#ifdef VERIFY_B8
-    scr.data = malloc(max_size ? max_size : 1); g_ms_idx = 0;
-#else
-    scr.data = malloc(1);                     /* the data block itself is abstracted, see BP_SCRATCH_ALLOC */
-#endif
+    scr.data = malloc(1);                     /* the data block itself is abstracted */
     __CPROVER_assume(scr.data != NULL); data0 = scr.data;
     INPUT_BUF(pf, proof, proof_len, 8);
     gv.n = gn; gv.gens = malloc(gn * sizeof(secp256k1_ge)); __CPROVER_assume(gv.gens != NULL);
     c_vec = malloc(c_len * sizeof(secp256k1_scalar)); __CPROVER_assume(c_vec != NULL);
-#ifdef VERIFY_B8
-    { size_t q; for (q = 0; q < LMAX; q++) if (q < c_len) __CPROVER_assume(scalar_ok(&c_vec[q])); }   /* c_vec holds scalars */
-#endif
-    bytes0 = tr.bytes;
-    HASHLOG_RESET(); g_we = (int)we; g_wpos = bytes0 + 65 * we + wk;
-    g_mm_n = 0; g_geq_n = 0; g_geq_v = 0; g_pp_n = 0; g_pp_k = 0;
-
-    ret = secp256k1_bppp_rangeproof_norm_product_verify(&ctx, &scr, proof, proof_len, &tr, &rho, &gv, g_len, c_vec, c_len, &commit);
-    WITNESS_BUF(pf, proof, proof_len, 8);
-
+    { size_t q; for (q = 0; q < VLEN; q++) if (q < c_len) __CPROVER_assume(scalar_ok(&c_vec[q])); }   /* c_vec holds scalars (checked where it is read: lengths <= VLEN) */
     /* ---- specification of the gates, written from the property text ---- */
     if (g_len != 0) lg = spec_log2(g_len);
     if (c_len != 0) lh = spec_log2(c_len);
@@ -141,6 +132,15 @@ void h_verify_gate(void) {
 #ifndef VERIF_NATIVE
     if (gates) { n_big = be256(&proof[65 * rounds]) >= N_(); l_big = be256(&proof[65 * rounds + 32]) >= N_(); }
 #endif
+    /* bounded part of the domain: inputs that pass every structural gate have vectors of at most VLEN entries */
+    __CPROVER_assume(!gates || (g_len <= VLEN && c_len <= VLEN));
+    bytes0 = tr.bytes;
+    HASHLOG_RESET(); g_we = (int)we; g_wpos = bytes0 + 65 * we + wk;
+    g_mm_n = 0; g_geq_n = 0; g_geq_v = 0; g_pp_n = 0; g_pp_k = 0;
+
+    ret = secp256k1_bppp_rangeproof_norm_product_verify(&ctx, &scr, proof, proof_len, &tr, &rho, &gv, g_len, c_vec, c_len, &commit);
+    WITNESS_BUF(pf, proof, proof_len, 8);
+
     __CPROVER_assert(ret == 0 || ret == 1, "C19 verify: returns 0 or 1");
     __CPROVER_assert(g_error == 0 && g_illegal == 0, "C19 verify: no callback");
     __CPROVER_assert(scr.alloc_size == alloc0 && scr.max_size == max_size && scr.data == data0, "C19 verify: scratch checkpoint restored on every return path");
@@ -161,7 +161,7 @@ void h_verify_gate(void) {
                 __CPROVER_assert(g_w_hit == 1 && g_w_byte == proof[65 * we + wk], "C19 verify: every byte of every round's 65-byte point pair is absorbed into the transcript, in order");
                 __CPROVER_assert(g_w_fin == 1 && g_w_end == bytes0 + 65 * (we + 1) + 8, "C19 verify: round challenge = hash of the transcript so far plus an 8-byte index");
             }
-            if (ret == 1 && rounds >= 3 && lg != lh) REACH("accepts with 3 or more rounds and different lengths");
+            if (ret == 1 && rounds >= (VLEN >= 8 ? 3 : 1) && lg != lh) REACH("accepts with the maximal number of rounds and different vector lengths");
             if (ret == 0 && g_mm_n == 2 && g_geq_n == 1) REACH("rejects on the final comparison");
             if (ret == 0 && g_mm_n == 1) REACH("first multi-exponentiation fails (bad point or scratch)");
         }
